@@ -4,11 +4,16 @@
    fn = "DataURI"   : out = minify.DataURI(m, in) (directly, or the URL found by an independent
                       tokenizer in the output of the CSS / HTML minifier for a document holding `in`);
                       regs = media types a minifier is registered for, calls = what that minifier
-                      was observed to receive / return (outermost calls);
+                      was observed to receive / return (outermost calls, [in, out, err]);
                       refpay (when hasref) = the payload of `in` as decoded by the Go standard
                       library - a second oracle for the TLA+ decoders (disagreement = machinery).
-   fn = "Mediatype" : out = minify.Mediatype(in). *)
-EXTENDS DataUri, TraceIO
+   fn = "Mediatype" : out = minify.Mediatype(in) (directly or as the HTML type attribute).
+
+   Conforms  is the verdict (the property's relation, spec/DataUri.tla).
+   DriftInfo compares the same line with the design models (MtMachine.AsIs, DataUriDesign.Design
+             for calls without a registered minifier); a difference is reported as
+             "DRIFT..." - information about the models, never a verdict. *)
+EXTENDS MtMachine, DataUriDesign, TraceIO
 VARIABLE l
 Init == l = 1
 Next == l <= N /\ l' = l + 1
@@ -22,4 +27,9 @@ LineWhy(e) ==
   ELSE IF ~OracleAgrees(e) THEN "ORACLE"
   ELSE DataUriWhy(e.in, e.out, RegSet(e), e.calls)
 Conforms == l <= N => LET w == LineWhy(Trace[l]) IN w = "" \/ Reject(l, w)
+
+Drift(e) == IF e.panic THEN FALSE
+            ELSE IF e.fn = "Mediatype" THEN e.out # AsIs(e.in)
+            ELSE Len(e.regs) = 0 /\ e.out # Design(e.in, "none")
+DriftInfo == l <= N => (~Drift(Trace[l]) \/ Reject(l, "DRIFT"))
 =============================================================================
